@@ -492,7 +492,7 @@ def _split_task(args):
 def oracle_splits(ctx, pool):
     """the pairing memoised for one place must never be served to a place with another split of the same items"""
     docs = split_enum(ctx.rng, 3)
-    docs += split_enum(ctx.rng, 4, limit=(150 if ctx.thorough else 30))
+    docs += split_enum(ctx.rng, 4, limit=(150 if ctx.thorough else 16))
     if ctx.thorough:
         docs += split_enum(ctx.rng, 3) + split_enum(ctx.rng, 5, limit=100)
     for t1r, t2r, out in pool.map(_split_task, [(repr(a), repr(b)) for a, b, _k in docs], chunksize=4):
@@ -1278,7 +1278,7 @@ def correspondence(ctx, inputs, pool):
     ctx.note("trace_disabled_lookups", disabled)
     timed_cases(ctx, "memo_trace", HEADER, tcases, shard=40, label="memo_model:every_cache_event_of_the_run")
     timed_cases(ctx, "memo_trace_computed", HEADER, pcases, shard=4, label="memo_model_with_computed_pairs_bodies:every_cache_event_and_value")
-    selcases += select_synthetic(ctx, 2000 if ctx.thorough else 300)
+    selcases += select_synthetic(ctx, 2000 if ctx.thorough else 200)
     timed_cases(ctx, "pairs_select", HEADER, selcases, shard=300, label="greedy_pair_selection")
     ctx.note("pairs_select_cases", {"recorded_pairs_calls": len(seen_sel), "synthetic(ties, real method through a stub self)": len(selcases) - len(seen_sel)})
     bad = timed_cases(ctx, "st_trace", HEADER, cases, shard=3, label="diff_model_with_one_cache:result+every_cache_event")
@@ -1556,7 +1556,7 @@ def run(ctx):
         tm["grid"] = round(time.time() - t0, 1)
         t0 = time.time()
         oracle_hashes(ctx, pool, core.NCPU, 12 if ctx.thorough else 3, 6 if ctx.thorough else 2)
-        oracle_sessions(ctx, pool, 150 if ctx.thorough else 24)
+        oracle_sessions(ctx, pool, 150 if ctx.thorough else 18)
         tm["hashes"] = round(time.time() - t0, 1)
     t0 = time.time()
     delta_parked(ctx)
